@@ -503,12 +503,25 @@ theorem DiscreteUniform_invcdf_counterexample :
   · rw [h0, DiscreteUniform_cdf_val]; norm_num
 
 -- @site DiscreteUniform.invcdf_real
-/-- the generated definition carries no truncation (`X` instantiated with the real carrier): at the same witness it
-    returns 3/5, which is not an integer — the generated `DiscreteUniform.invcdf_real` does not model the Rust. -/
-theorem DiscreteUniform_gen_invcdf_untruncated :
-    (Gen.DiscreteUniform.invcdf_real (⟨0, 1⟩ : Gen.DiscreteUniform R) (⟨3/5⟩ : R)).val = 3 / 5 := by
-  simp only [Gen.DiscreteUniform.invcdf_real, Option.getD_some, R.add_val, R.mul_val, R.ofIntR_val]
-  norm_num
+/-- since the repair "DiscreteUniform widens its bounds before subtracting" the source truncates in f64
+    (`(p * diff).trunc() + a`), so the generated definition carries the truncation too and agrees with the hand model:
+    for every `d` and every `p ≥ 0` its value is the integer `Hand.DiscreteUniform.invcdf d p`. -/
+theorem DiscreteUniform_gen_invcdf_eq_hand (d : Gen.DiscreteUniform R) (p : R) (hp : 0 ≤ p.val) (hab : d.a ≤ d.b) :
+    (Gen.DiscreteUniform.invcdf_real d p).val = ((Hand.DiscreteUniform.invcdf d p : Int) : ℝ) := by
+  have hd : (0:ℝ) ≤ p.val * ((d.b : ℝ) - (d.a : ℝ)) := by
+    apply mul_nonneg hp
+    have : (d.a : ℝ) ≤ d.b := by exact_mod_cast hab
+    linarith
+  simp only [Gen.DiscreteUniform.invcdf_real, Hand.DiscreteUniform.invcdf, Option.getD_some, R.add_val, R.mul_val, R.sub_val,
+    R.ofIntR_val, RealLike.trunc, RealLike.toInt]
+  have h1 : (0:ℝ) ≤ p.val * (((d.b - d.a : Int)) : ℝ) := by push_cast; exact hd
+  simp only [if_pos hd, if_pos h1]
+  push_cast
+  ring_nf
+
+example : (Gen.DiscreteUniform.invcdf_real (⟨0, 1⟩ : Gen.DiscreteUniform R) (⟨3/5⟩ : R)).val
+    = ((Hand.DiscreteUniform.invcdf (⟨0, 1⟩ : Gen.DiscreteUniform R) (⟨3/5⟩ : R) : Int) : ℝ) :=
+  DiscreteUniform_gen_invcdf_eq_hand _ _ (by norm_num) (by decide)
 
 -- @site DiscreteUniform.invcdf_real
 theorem DiscreteUniform_invcdf_cdf (d : Gen.DiscreteUniform R) (k : Int) (hab : d.a < d.b) (hk0 : d.a ≤ k)
@@ -677,7 +690,7 @@ end C12
 #print axioms C12.LogNormal_interval
 #print axioms C12.LogNormal_invcdf_spec
 #print axioms C12.DiscreteUniform_invcdf_counterexample
-#print axioms C12.DiscreteUniform_gen_invcdf_untruncated
+#print axioms C12.DiscreteUniform_gen_invcdf_eq_hand
 #print axioms C12.DiscreteUniform_invcdf_cdf
 #print axioms C12.DiscreteUniform_invcdf_support
 #print axioms C12.DiscreteUniform_invcdf_mono
